@@ -90,9 +90,15 @@ inductive Consumer (Val : Type) where
   | trigX (c : Arg Val) (t : PId) (deps : List PId)   -- where: `if self.value: trigger`
   | trigY (c : Arg Val) (t : PId) (deps : List PId)   -- where: `if not self.value: trigger`
   | watch (k : Nat) (n : NId) (deps : List PId)       -- .rx.watch callback number k on node n
+  | sync (h : Nat) (n : NId) (deps : List PId)        -- `_sync_refs` of holder h: a Parameter that holds node n as a reference
+                                                      -- (precedence −1, registered after the invalidators of everything n reads)
 
 def Consumer.deps {Val} : Consumer Val → List PId
-  | .trigX _ _ d => d | .trigY _ _ d => d | .watch _ _ d => d
+  | .trigX _ _ d => d | .trigY _ _ d => d | .watch _ _ d => d | .sync _ _ d => d
+
+def Consumer.isSync {Val} : Consumer Val → Bool
+  | .sync .. => true
+  | _ => false
 
 structure World (Val Err Op : Type) where
   vals : PId → Val                        -- current value of every parameter
@@ -103,6 +109,7 @@ structure World (Val Err Op : Type) where
   trigs : List (PId × List PId)           -- Trigger event ↦ Trigger.parameters
   consumers : List (Consumer Val)
   nwatch : Nat
+  holders : List Val := []                -- value of every Parameter that holds an expression as a reference
 
 inductive Exn (Err : Type) where
   | py (e : Err)      -- a Python exception
@@ -123,7 +130,7 @@ variable {Val Err Op : Type}
 
 def World.empty (S : Sem Val Err Op) : World Val Err Op :=
   { vals := fun _ => S.none, nparams := 0, inputs := [], nodes := [], cells := [], trigs := [],
-    consumers := [], nwatch := 0 }
+    consumers := [], nwatch := 0, holders := [] }
 
 def World.modNode (w : World Val Err Op) (n : NId) (f : Node Val Err Op → Node Val Err Op) : World Val Err Op :=
   { w with nodes := w.nodes.modify n f }
@@ -325,6 +332,8 @@ inductive Stmt (Val Op : Type) where
   | watch (n : NId)                                         -- n.rx.watch(cb)
   | set (p : PId) (v : Val)                                 -- root.rx.value = v / obj.p = v
   | read (n : NId)                                          -- n.rx.value
+  | ref (n : NId)                                           -- H(v=n) with `v = Parameter(allow_refs=True)`
+  | readref (h : Nat)                                       -- holder h: `h.v`
 
 inductive Outcome (Val Err : Type) where
   | created
@@ -361,7 +370,12 @@ consumer that depends on `q` several times is still registered (and called) once
 def consumersOf (w : World Val Err Op) (q : PId) : List (Consumer Val) :=
   w.consumers.filter fun c => c.deps.contains q
 
-/-- run the precedence-0 watchers in order; the first exception aborts the dispatch -/
+/-- `sorted(watchers, key=precedence)` (stable): the `_sync_refs` watchers (−1) before the precedence-0 ones.
+All invalidation watchers are taken to have run before (see the header; checked by correspondence). -/
+def dispatchOrder (w : World Val Err Op) (q : PId) : List (Consumer Val) :=
+  (consumersOf w q).filter (·.isSync) ++ (consumersOf w q).filter (fun c => !c.isSync)
+
+/-- run the remaining watchers in order; the first exception aborts the dispatch -/
 def runConsumers (S : Sem Val Err Op) (fuel : Nat) :
     List (Consumer Val) → World Val Err Op → List (Nat × Val) → Outcome Val Err × World Val Err Op
   | [], w, log => (.set log none, w)
@@ -382,6 +396,13 @@ def runConsumers (S : Sem Val Err Op) (fuel : Nat) :
     | .watch k n _ =>
       match run S fuel (.resolve n) w with
       | (.ok v, w1) => runConsumers S fuel cs w1 (log ++ [(k, v)])
+      | (.error (.py e), w1) => (.set log (some e), w1)
+      | (.error .fuel, w1) => (.fuel, w1)
+      | (.error .bad, w1) => (.bad, w1)
+    | .sync h n _ =>
+      -- src: parameterized.py Parameters._sync_refs — resolve_value(ref), then update the holder
+      match run S fuel (.resolve n) w with
+      | (.ok v, w1) => runConsumers S fuel cs { w1 with holders := w1.holders.set h v } log
       | (.error (.py e), w1) => (.set log (some e), w1)
       | (.error .fuel, w1) => (.fuel, w1)
       | (.error .bad, w1) => (.bad, w1)
@@ -507,13 +528,31 @@ def step (S : Sem Val Err Op) (fuel : Nat) (w : World Val Err Op) : Stmt Val Op 
     let old := w.vals p
     let w1 := { w with vals := fun q => if q = p then v else w.vals q }
     if S.isEqual old v then (.set [] none, w1)            -- onlychanged watchers are not called
-    else runConsumers S fuel (consumersOf w1 p) (invalidate w1 p) []
+    else runConsumers S fuel (dispatchOrder w1 p) (invalidate w1 p) []
   | .read n =>
     match run S fuel (.resolve n) w with
     | (.ok v, w1) => (.read v, w1)
     | (.error (.py e), w1) => (.readErr e, w1)
     | (.error .fuel, w1) => (.fuel, w1)
     | (.error .bad, w1) => (.bad, w1)
+  | .ref n =>
+    -- src: Parameters._setup_params / _resolve_ref / _setup_refs: deps = resolve_ref(value); a value without
+    -- dependencies is not a reference; resolve_value(value) (a read); then the `_sync_refs` watcher
+    match w.nodes[n]? with
+    | none => (.bad, w)
+    | some nd =>
+      if nd.params.isEmpty then (.bad, w) else
+      match run S fuel (.resolve n) w with
+      | (.ok v, w1) =>
+        (.created, { w1 with consumers := w1.consumers ++ [.sync w1.holders.length n nd.params],
+                             holders := w1.holders ++ [v] })
+      | (.error (.py e), w1) => (.createErr e, w1)
+      | (.error .fuel, w1) => (.fuel, w1)
+      | (.error .bad, w1) => (.bad, w1)
+  | .readref h =>
+    match w.holders[h]? with
+    | some v => (.read v, w)
+    | none => (.bad, w)
 
 /-- replay a program; creation failing ends the program (later statements would dangle) -/
 def runProg (S : Sem Val Err Op) (fuel : Nat) : World Val Err Op → List (Stmt Val Op) → List (Outcome Val Err)
